@@ -2,6 +2,7 @@
   Soundness of the parser model: what holds of every point `parsePoint` accepts.
 -/
 import Influx.Lemmas.LineProtocolErrors
+import Influx.Lemmas.LineProtocolKey
 
 namespace Influx.LP
 open Influx.Generated.LineProto Influx.Spec.C12
@@ -144,7 +145,8 @@ theorem unescape_length_le (s : Bytes) : (unescape s).length ≤ s.length := by
 
 theorem walkFieldsCheck_bound (keyLen fuel : Nat) (fields : Bytes)
     (h : walkFieldsCheck keyLen fuel fields = .ok ()) :
-    ∀ f ∈ iterFields fuel fields, keyLen + 4 + f.key.length ≤ MaxKeyLength := by
+    ∀ f ∈ iterFields fuel fields, keyLen + 4 + f.key.length ≤ MaxKeyLength ∧
+      (f.typ = .string → 2 ≤ f.valueBuf.length) := by
   induction fuel generalizing fields with
   | zero => intro f hf; simp [iterFields] at hf
   | succ n ih =>
@@ -157,16 +159,37 @@ theorem walkFieldsCheck_bound (keyLen fuel : Nat) (fields : Bytes)
       · cases h
       · split at h
         · cases h
-        · next h1 h2 =>
-          intro f hf
-          simp only [iterFields, List.mem_cons] at hf
-          rcases hf with rfl | hf
-          · simp only
-            have hle : keyLen + 4 + (scanTo cEq false (b :: r)).1.length ≤ MaxKeyLength := by omega
-            split
-            · have := unescape_length_le (scanTo cEq false (b :: r)).1; omega
-            · exact hle
-          · exact ih _ h f hf
+        · split at h
+          · cases h
+          · next h1 h2 h3 =>
+            intro f hf
+            simp only [iterFields, List.mem_cons] at hf
+            rcases hf with rfl | hf
+            · simp only
+              have hle : keyLen + 4 + (scanTo cEq false (b :: r)).1.length ≤ MaxKeyLength := by omega
+              constructor
+              · split
+                · have := unescape_length_le (scanTo cEq false (b :: r)).1; omega
+                · exact hle
+              · intro htyp
+                generalize hvb : (scanFieldValue false false ((scanTo cEq false (b :: r)).2.drop 1)).1 = vb at h3 htyp ⊢
+                unfold classifyValue at htyp ⊢
+                cases vb with
+                | nil => simp at htyp
+                | cons c t =>
+                  simp only at htyp ⊢
+                  split at htyp
+                  · next hc =>
+                    simp only [if_pos hc]
+                    cases t with
+                    | nil => subst hc; exact absurd rfl h3
+                    | cons d t' => simp
+                  · split at htyp
+                    · split at htyp
+                      · cases htyp
+                      · split at htyp <;> cases htyp
+                    · cases htyp
+            · exact ih _ h f hf
 
 /-! ### representable timestamp -/
 
@@ -211,5 +234,90 @@ theorem time_range (rest2 : Bytes) (dt : Int) (prec : String) (t : Int)
   obtain ⟨ts, rest3, _, h | h⟩ := h
   · rw [h.2]; exact truncTime_range dt prec hdt
   · obtain ⟨_, v, _, hs⟩ := h; exact safeCalcTime_range v prec t hs
+
+/-! ### `parseTags` never indexes out of range, on any key -/
+
+theorem scanTo_partition (stop : Nat) (pbs : Bool) (s : Bytes) :
+    (scanTo stop pbs s).1 ++ (scanTo stop pbs s).2 = s := by
+  induction s generalizing pbs with
+  | nil => rfl
+  | cons b r ih =>
+    rw [scanTo]
+    split
+    · rfl
+    · simp [ih]
+
+theorem scanTo_rest (stop : Nat) (pbs : Bool) (s : Bytes) :
+    (scanTo stop pbs s).2 = [] ∨ ∃ r, (scanTo stop pbs s).2 = stop :: r := by
+  induction s generalizing pbs with
+  | nil => left; rfl
+  | cons b r ih =>
+    rw [scanTo]
+    split
+    · next h => right; exact ⟨r, by rw [h.1]⟩
+    · exact ih _
+
+theorem count_scanTo_rest (stop : Nat) (pbs : Bool) (s : Bytes) (x : Nat) :
+    (scanTo stop pbs s).2.count x ≤ s.count x := by
+  have h := scanTo_partition stop pbs s
+  calc (scanTo stop pbs s).2.count x ≤ ((scanTo stop pbs s).1 ++ (scanTo stop pbs s).2).count x := by
+        rw [List.count_append]; omega
+    _ = s.count x := by rw [h]
+
+theorem count_drop_le (l : Bytes) (x : Nat) : (l.drop 1).count x ≤ l.count x := by
+  cases l with
+  | nil => simp
+  | cons a r => simp only [List.drop_succ_cons, List.drop_zero, List.count_cons]; split <;> omega
+
+theorem walkTagsLoop_length (he : Bool) (fuel : Nat) (buf : Bytes) :
+    (walkTagsLoop he fuel buf).length ≤ buf.count cComma + 1 := by
+  induction fuel generalizing buf with
+  | zero => simp [walkTagsLoop]
+  | succ n ih =>
+    cases buf with
+    | nil => simp [walkTagsLoop]
+    | cons b r =>
+      rw [walkTagsLoop]
+      have h1 := count_scanTo_rest cEq false (b :: r) cComma
+      have h1' := count_drop_le (scanTo cEq false (b :: r)).2 cComma
+      rw [scanTagValue_eq]
+      have h2 := count_scanTo_rest cComma false ((scanTo cEq false (b :: r)).2.drop 1) cComma
+      split
+      · have := ih (scanTo cComma false ((scanTo cEq false (b :: r)).2.drop 1)).2
+        omega
+      · simp only [List.length_cons]
+        rcases scanTo_rest cComma false ((scanTo cEq false (b :: r)).2.drop 1) with h | ⟨r', h⟩
+        · rw [h]; simp [walkTagsLoop_nil]
+        · rw [h] at h2 ⊢
+          simp only [List.drop_succ_cons, List.drop_zero, List.count_cons_self] at h2 ⊢
+          have := ih r'
+          omega
+
+theorem walkTags_length (buf : Bytes) : (walkTags buf).length ≤ buf.count cComma := by
+  unfold walkTags
+  split
+  · simp
+  · simp only
+    split
+    · simp
+    · have h1 := count_scanTo_rest cComma false buf cComma
+      rcases scanTo_rest cComma false buf with h | ⟨r, h⟩
+      · rw [h]; simp [walkTagsLoop_nil]
+      · rw [h] at h1 ⊢
+        simp only [List.drop_succ_cons, List.drop_zero, List.count_cons_self] at h1 ⊢
+        have := walkTagsLoop_length (buf.contains cBS) buf.length r
+        omega
+
+/-- `parseTags` (hence `point.Tags()`) returns on every byte string -/
+theorem parseTags_isSome (buf : Bytes) : parseTags buf = some (walkTags buf) := by
+  unfold parseTags
+  simp [walkTags_length buf]
+
+/-- `ParseKeyBytes` returns on every byte string -/
+theorem parseKeyBytes_isSome (buf : Bytes) : (parseKeyBytes buf).isSome = true := by
+  unfold parseKeyBytes
+  split
+  · rw [parseTags_isSome]; rfl
+  · rfl
 
 end Influx.LP
